@@ -14,8 +14,73 @@ func init() {
 	register(&PropDef{ID: "C03", Gen: genC03, Run: runC03})
 }
 
+var recoveryStoreFaults = []string{"err-before", "err-after", "redis-down", "redis-torn:2", "redis-torn:3", "redis-torn:5", "redis-torn:7", "crash-before", "crash-after", "ctx-cancel"}
+
+// genC03Recovery: bounded liveness after faults. A prelude of ordinary browsing in which a few seam calls
+// fail (store, Redis half-way through a call, token endpoint, key endpoint, discovery, connection refused, the
+// caller giving up, a crash), then the faults stop, and every browser - whatever cookie the prelude left it
+// with - must get through one pass of login (or still be logged in).
+func genC03Recovery(r *Rng, p *Plan) *Plan {
+	p.Mode = "recovery"
+	p.Spec = genSpec(r, genOpts{Filters: 1, AllowRedis: true, Triggers: true, Timeouts: false})
+	k := &p.Spec.IdPs[0].Knobs
+	if k.Refresh == "none" && r.Bool() {
+		k.Refresh = "rotate"
+	}
+	id := 0
+	nid := func() int { id++; return id }
+	target := genTarget(r)
+	n := r.Range(2, 7)
+	for i := 0; i < n; i++ {
+		b := r.Intn(2)
+		switch r.Intn(8) {
+		case 0, 1, 2:
+			p.Ops = append(p.Ops, Op{ID: nid(), Kind: "nav", B: b, Path: target})
+		case 3:
+			p.Ops = append(p.Ops, Op{ID: nid(), Kind: "begin", B: b, Path: target})
+		case 4:
+			p.Ops = append(p.Ops, Op{ID: nid(), Kind: "finish", B: b})
+		case 5:
+			p.Ops = append(p.Ops, Op{ID: nid(), Kind: "send", B: b, Path: target, S: "own"})
+		case 6:
+			p.Ops = append(p.Ops, Op{ID: nid(), Kind: "adv", D: r.Range(1, 90)})
+		case 7:
+			p.Ops = append(p.Ops, Op{ID: nid(), Kind: "send", B: b, Path: target, S: "stale"})
+		}
+	}
+	nf := r.Range(1, 3)
+	for i := 0; i < nf; i++ {
+		switch r.Intn(12) {
+		case 0, 1, 2, 3:
+			p.Faults = append(p.Faults, Fault{Site: "store." + r.Pick(storeMethods), Nth: r.Range(1, 5), Kind: r.Pick(recoveryStoreFaults)})
+		case 4, 5:
+			p.Faults = append(p.Faults, Fault{Site: "idp.token", Nth: r.Range(1, 3), Kind: r.Pick(append([]string{"ctx-cancel"}, tokenFaults...))})
+		case 6:
+			p.Faults = append(p.Faults, Fault{Site: "jwks.get", Nth: r.Range(1, 2), Kind: "err"})
+		case 7, 8:
+			p.Faults = append(p.Faults, Fault{Site: "idp.jwks", Nth: 1, Kind: r.Pick([]string{"500", "ctx-cancel"})})
+		case 9, 10:
+			p.Faults = append(p.Faults, Fault{Site: "idp.disc", Nth: r.Range(1, 2), Kind: r.Pick([]string{"500", "garbage", "reset", "ctx-cancel"})})
+		case 11:
+			p.Faults = append(p.Faults, Fault{Site: "net.dial", Nth: r.Range(1, 4), Kind: "refused"})
+		}
+	}
+	p.Ops = append(p.Ops, Op{ID: nid(), Kind: "faults-stop"})
+	if r.Chance(0.5) {
+		p.Ops = append(p.Ops, Op{ID: nid(), Kind: "adv", D: r.Range(1, 60)})
+	}
+	for _, b := range []int{0, 1, 4} {
+		p.Ops = append(p.Ops, Op{ID: nid(), Kind: "recover", B: b, Path: target})
+	}
+	sprayReplicas(r, p, 0.3)
+	return p
+}
+
 func genC03(r *Rng, tier string, idx int) *Plan {
 	p := &Plan{SchedSeed: r.U64()}
+	if idx%4 == 3 {
+		return genC03Recovery(r, p)
+	}
 	p.Spec = genSpec(r, genOpts{Filters: 1, AllowRedis: true, Triggers: true, Timeouts: false})
 	// systematic part: the index enumerates the boolean cross product several times over
 	bits := idx
@@ -52,7 +117,71 @@ func genC03(r *Rng, tier string, idx int) *Plan {
 	return p
 }
 
+func runC03Recovery(p *Plan) *Result {
+	w := NewWorld(p.Spec, p.SchedSeed, p.Policy, p.Faults)
+	w.StartNet(nil)
+	defer w.Close()
+	w.Boot()
+	if w.Rep.BootErr != nil {
+		r := w.result()
+		r.Infra = "generated configuration was rejected: " + w.Rep.BootErr.Error()
+		return r
+	}
+	f := w.Filters[0]
+	a := w.NewAgents()
+	recovered := 0
+	for i := range p.Ops {
+		op := &p.Ops[i]
+		switch op.Kind {
+		case "faults-stop":
+			w.FaultsOff = true
+			w.logf("t=%s faults stop (%s)", time.Since(w.start).Round(time.Millisecond), w.FaultSummary())
+		case "recover":
+			if !w.FaultsOff {
+				continue // (shrunk plan without the marker: nothing to judge)
+			}
+			a.route(op)
+			before := len(f.IdP.AuthReqs)
+			nav := a.Nav("recover", op.B, 0, op.Path, 6)
+			classes := ""
+			for _, r := range nav.Recs {
+				classes += r.Class + ","
+			}
+			switch {
+			case nav.Stuck == "" && classes == "ok,":
+				w.probe("still-logged-in-after-faults")
+			case nav.Stuck == "" && classes == "redirect-idp,redirect-url,ok," && len(f.IdP.AuthReqs) == before+1:
+				w.probe("login-completed-after-faults")
+				recovered++
+			default:
+				sig := "login-does-not-complete-after-faults-stopped"
+				w.violate("C03", sig, fmt.Sprintf("faults stopped at an earlier step (%s); browser %d following redirects from %s: %s; verdicts: %s; %s", w.FaultSummary(), op.B, nav.FirstURL, nav.Stuck, classes, describeSpec(p.Spec)))
+				res := w.result().only("C03")
+				res.Nontrivial = true
+				return res
+			}
+			// and it stays logged in
+			if rec := a.Raw("again", op.B, 0, op.Path, "own"); rec != nil && rec.Class != "ok" {
+				w.violate("C03", "valid-session-not-ok-after-faults:"+rec.Class, fmt.Sprintf("browser %d was answered %s right after its login completed; %s", op.B, rec.Class, describeSpec(p.Spec)))
+			}
+		default:
+			c15Exec(a, op)
+		}
+	}
+	res := w.result().only("C03")
+	nf := 0
+	for _, v := range w.FaultsFired {
+		nf += v
+	}
+	res.Nontrivial = recovered > 0 && nf > 0
+	res.Summary = "recovery: " + w.FaultSummary()
+	return res
+}
+
 func runC03(p *Plan) *Result {
+	if p.Mode == "recovery" {
+		return runC03Recovery(p)
+	}
 	w := NewWorld(p.Spec, p.SchedSeed, p.Policy, nil)
 	w.StartNet(nil)
 	defer w.Close()
